@@ -342,6 +342,20 @@ struct Rewriter<'a> {
 /// `self` inside an inlined helper body becomes the receiver expression of the call
 struct SelfSubst<'a> { recv: &'a syn::Expr }
 impl<'a> VisitMut for SelfSubst<'a> {
+    fn visit_macro_mut(&mut self, m: &mut syn::Macro) {
+        // `self` inside macro arguments (matches!(self, ..), format args): token-level substitution
+        fn subst(ts: TokenStream, recv: &TokenStream) -> TokenStream {
+            ts.into_iter().flat_map(|tt| -> Vec<TokenTree> {
+                match tt {
+                    TokenTree::Ident(ref i) if i == "self" => vec![TokenTree::Group(proc_macro2::Group::new(proc_macro2::Delimiter::Parenthesis, recv.clone()))],
+                    TokenTree::Group(g) => { let mut ng = proc_macro2::Group::new(g.delimiter(), subst(g.stream(), recv)); ng.set_span(g.span()); vec![TokenTree::Group(ng)] }
+                    other => vec![other],
+                }
+            }).collect()
+        }
+        let recv = self.recv.to_token_stream();
+        m.tokens = subst(m.tokens.clone(), &recv);
+    }
     fn visit_expr_mut(&mut self, e: &mut syn::Expr) {
         if let syn::Expr::Path(p) = e {
             if p.qself.is_none() && p.path.is_ident("self") { *e = self.recv.clone(); return; }
@@ -1991,17 +2005,23 @@ fn main() {
                 // once in the file is ambiguous and left out
                 {
                     let listed: BTreeSet<String> = unit_toml.item.iter().flat_map(|i| i.methods.iter().cloned()).collect();
+                    // impl items of the unit that extract ALL methods of a type: every method of that type is already there
+                    let all_of: BTreeSet<String> = unit_toml.item.iter().filter(|i| i.methods.is_empty() && i.path.starts_with("impl "))
+                        .filter_map(|i| i.path.split_whitespace().last().map(|x| x.to_string())).collect();
                     let mut seen: BTreeMap<String, usize> = BTreeMap::new();
                     let mut cand: BTreeMap<String, syn::ImplItemFn> = BTreeMap::new();
                     for it in items.iter() {
                         if let syn::Item::Impl(im2) = it {
                             if im2.trait_.is_some() || !cfg.keep(&im2.attrs) { continue; }
+                            let provided_type = type_last_ident(&im2.self_ty).map(|t| all_of.contains(&t)).unwrap_or(false);
                             for ii in im2.items.iter() {
                                 if let syn::ImplItem::Fn(mf) = ii {
                                     if !cfg.keep(&mf.attrs) { continue; }
                                     let n = mf.sig.ident.to_string();
+                                    // every definition counts: a name that exists twice in the file is never inlined (a call cannot be
+                                    // attributed to one of them syntactically)
                                     *seen.entry(n.clone()).or_insert(0) += 1;
-                                    if listed.contains(&n) || prelude_fn_names.contains(&n) { continue; }
+                                    if provided_type || listed.contains(&n) || prelude_fn_names.contains(&n) { continue; }
                                     cand.insert(n, mf.clone());
                                 }
                             }
